@@ -247,3 +247,185 @@ Theorem c14_dom_markers_any_overflow :
 Proof. exact DomRel.c14_dom_markers_any_overflow. Qed.
 Print Assumptions c14_dom_markers_any_overflow.
 
+
+(* ---------- trees WITH tables (Proofs/FragTables.v): raw mode in document order; any layout as a multiset (minus skipped cells); order inside each cell; markers never influence estimates, column widths or emptiness ---------- *)
+From H2T Require Import Base Tagged Wrap Sub Css Dom Render Api CssParse Proofs.CssTotal Proofs.WrapInv Proofs.RenderWidth Proofs.Conserve Proofs.Footnotes Proofs.AnnBalance Proofs.RenderConserve Proofs.OptionRel Proofs.Compose Proofs.RenderTotal Proofs.FragStream Proofs.SimRel Proofs.Prune Proofs.RenderConserve Proofs.FragTables.
+Theorem c14_render_node_raw :
+  forall (d : deco) (mw : N) (n : rnode) (st st' : rstate) (s : subr) (rest : list subr),
+       prefix_made d ->
+       o_raw (sopts s) = true ->
+       stack st = s :: rest ->
+       Iv s ->
+       render_node d mw n st = Ok st' ->
+       exists (s' : subr) (t : list sitem),
+         stack st' = s' :: rest /\
+         swidth_ s' = swidth_ s /\
+         sopts s' = sopts s /\
+         Iv s' /\
+         mstream_out s' = mstream_out s ++ t /\
+         msub (mts_min d mw (sopts s) n (swidth_ s)) t /\ msub t (mts_all d mw (sopts s) n (swidth_ s)).
+Proof. exact FragTables.c14_render_node_raw. Qed.
+Print Assumptions c14_render_node_raw.
+
+Theorem c14_render_tree_raw :
+  forall (d : deco) (mw : N) (o : ropts) (width : N) (tree : rnode) (s : subr),
+       prefix_made d ->
+       o_raw o = true ->
+       render_tree d mw o width tree = Ok s ->
+       btw (mts_min d mw o tree width) (mstream_out s) (mts_all d mw o tree width) /\
+       (forall ls : list rline,
+        sub_into_lines s = Ok ls ->
+        btw (FragStream.strip (mts_min d mw o tree width)) (mlines ls) (mts_all d mw o tree width)).
+Proof. exact FragTables.c14_render_tree_raw. Qed.
+Print Assumptions c14_render_tree_raw.
+
+Theorem c14_lines_from_read_raw :
+  forall (ist : list (text * text) -> res (list styledecl)) (dr : list node -> res (list ruleset))
+         (c : config) (doc : list node) (width : N) (tree : rnode) (tls : list tline),
+       prefix_made (c_deco c) ->
+       c_raw c = true ->
+       to_render_tree ist dr c doc = Ok tree ->
+       lines_from_read ist dr c doc width = Ok tls ->
+       btw (FragStream.strip (mts_min (c_deco c) (c_min_wrap c) (render_options c) tree width))
+         (flat_map mline tls) (mts_all (c_deco c) (c_min_wrap c) (render_options c) tree width).
+Proof. exact FragTables.c14_lines_from_read_raw. Qed.
+Print Assumptions c14_lines_from_read_raw.
+
+Theorem c14_markers_raw :
+  forall (ist : list (text * text) -> res (list styledecl)) (dr : list node -> res (list ruleset))
+         (c : config) (doc : list node) (width : N) (tree : rnode) (tls : list tline),
+       prefix_made (c_deco c) ->
+       c_raw c = true ->
+       to_render_tree ist dr c doc = Ok tree ->
+       lines_from_read ist dr c doc width = Ok tls ->
+       let O := flat_map mline tls in
+       let T := mts_all (c_deco c) (c_min_wrap c) (render_options c) tree width in
+       let M := FragStream.strip (mts_min (c_deco c) (c_min_wrap c) (render_options c) tree width) in
+       projr O = projr T /\
+       (forall (a : list (text + chr)) (name : text) (b : list (text + chr)),
+        O = a ++ inl name :: b ->
+        exists a' b' : list (text + chr),
+          T = a' ++ inl name :: b' /\ projr a' = projr a /\ projr b' = projr b) /\
+       (forall (a : list (text + chr)) (name : text) (b : list (text + chr)),
+        M = a ++ inl name :: b ->
+        exists a' b' : list (text + chr),
+          O = a' ++ inl name :: b' /\ projr a' = projr a /\ projr b' = projr b) /\
+       (NoDup (projl T) -> NoDup (projl O)).
+Proof. exact FragTables.c14_markers_raw. Qed.
+Print Assumptions c14_markers_raw.
+
+Theorem c14_render_tree_tables :
+  forall (d : deco) (mw : N) (o : ropts) (width : N) (tree : rnode) (s : subr),
+       prefix_made d ->
+       Forall posw (tree_stream d mw o tree width) ->
+       render_tree d mw o width tree = Ok s ->
+       (exists t : list sitem,
+          Permutation.Permutation (mstream_out s) t /\
+          btw (mts_min d mw o tree width) t (mts_all d mw o tree width)) /\
+       (forall ls : list rline,
+        sub_into_lines s = Ok ls ->
+        exists t : list sitem,
+          Permutation.Permutation (mlines ls) t /\
+          btw (FragStream.strip (mts_min d mw o tree width)) t (mts_all d mw o tree width)).
+Proof. exact FragTables.c14_render_tree_tables. Qed.
+Print Assumptions c14_render_tree_tables.
+
+Theorem c14_lines_from_read_tables :
+  forall (ist : list (text * text) -> res (list styledecl)) (dr : list node -> res (list ruleset))
+         (c : config) (doc : list node) (width : N) (tree : rnode) (tls : list tline),
+       prefix_made (c_deco c) ->
+       to_render_tree ist dr c doc = Ok tree ->
+       Forall posw (tree_stream (c_deco c) (c_min_wrap c) (render_options c) tree width) ->
+       lines_from_read ist dr c doc width = Ok tls ->
+       exists t : list sitem,
+         Permutation.Permutation (flat_map mline tls) t /\
+         btw (FragStream.strip (mts_min (c_deco c) (c_min_wrap c) (render_options c) tree width)) t
+           (mts_all (c_deco c) (c_min_wrap c) (render_options c) tree width).
+Proof. exact FragTables.c14_lines_from_read_tables. Qed.
+Print Assumptions c14_lines_from_read_tables.
+
+Theorem c14_markers_tables :
+  forall (ist : list (text * text) -> res (list styledecl)) (dr : list node -> res (list ruleset))
+         (c : config) (doc : list node) (width : N) (tree : rnode) (tls : list tline),
+       prefix_made (c_deco c) ->
+       to_render_tree ist dr c doc = Ok tree ->
+       Forall posw (tree_stream (c_deco c) (c_min_wrap c) (render_options c) tree width) ->
+       lines_from_read ist dr c doc width = Ok tls ->
+       let O := flat_map mline tls in
+       let T := mts_all (c_deco c) (c_min_wrap c) (render_options c) tree width in
+       let M := FragStream.strip (mts_min (c_deco c) (c_min_wrap c) (render_options c) tree width) in
+       Permutation.Permutation (projr O) (projr T) /\
+       (exists dropped : list text, Permutation.Permutation (projl T) (projl O ++ dropped)) /\
+       (exists extra : list text, Permutation.Permutation (projl O) (projl M ++ extra)) /\
+       (NoDup (projl T) -> NoDup (projl O)).
+Proof. exact FragTables.c14_markers_tables. Qed.
+Print Assumptions c14_markers_tables.
+
+Theorem c14_cells_in_order :
+  forall (d : deco) (mw w : N) (o : ropts) (cells : list rcell) (wsl : list (option N)) 
+         (s2 : rstate) (r : rstate * list subr),
+       prefix_made d ->
+       forallb (fun c : rcell => forallb no_table (cell_content c)) cells = true ->
+       geo s2 = Some (w, o) ->
+       cells_loop d mw cells wsl s2 [] = Ok r ->
+       Forall2
+         (fun (sub : subr) (cw : list rnode * N) =>
+          pfc sub /\
+          (forall ls : list rline,
+           sub_into_lines sub = Ok ls ->
+           btw (FragStream.strip (flat_map (mstream_min d) (fst cw))) (mlines ls)
+             (flat_map (mstream_tree d) (fst cw)))) (snd r) (rendered cells wsl).
+Proof. exact FragTables.c14_cells_in_order. Qed.
+Print Assumptions c14_cells_in_order.
+
+Theorem row_line_items :
+  forall (t : tag) (draw : bool) (i : nat) (sets : list (N * list rline)) (pads : list (option text))
+         (acc : tline),
+       pline allc (row_line t draw i sets pads acc) = pline allc acc ++ row_items draw i sets pads.
+Proof. exact FragTables.row_line_items. Qed.
+Print Assumptions row_line_items.
+
+Theorem c14_columns_per_cell :
+  forall (cols : list subr) (collapse : bool) (s s' : subr),
+       Forall pfc cols ->
+       pfc s ->
+       append_columns_with_borders s cols collapse = Ok s' ->
+       exists (sets : list (N * list rline)) (hgt : nat),
+         mstream_out s' = mstream_out s ++ rows_ms hgt 0 sets /\
+         Forall2
+           (fun (c : subr) (p : N * list rline) =>
+            exists ls : list rline, sub_into_lines c = Ok ls /\ col_ms hgt 0 (snd p) = mlines ls) cols sets.
+Proof. exact FragTables.c14_columns_per_cell. Qed.
+Print Assumptions c14_columns_per_cell.
+
+Theorem est_erase :
+  forall (d : deco) (mw : N) (n : rnode), ol_clean n = true -> est_node d mw (erase n) = est_node d mw n.
+Proof. exact FragTables.est_erase. Qed.
+Print Assumptions est_erase.
+
+Theorem cell_widths_erase :
+  forall (vr : bool) (col_widths : list N) (cells : list rcell) (colno : N),
+       cell_widths vr col_widths (map ecell cells) colno = cell_widths vr col_widths cells colno.
+Proof. exact FragTables.cell_widths_erase. Qed.
+Print Assumptions cell_widths_erase.
+
+Theorem sub_empty_frag :
+  forall (s : subr) (name : text), sub_empty (record_frag_start s name) = sub_empty s.
+Proof. exact FragTables.sub_empty_frag. Qed.
+Print Assumptions sub_empty_frag.
+
+Theorem insert_child_table_first_cell :
+  forall (frag : rnode) (n : N) (k : list rnode) (s : cstyle) (cells : list rcell) 
+         (rs : cstyle) (rows : list rrow) (nc : N) (st : cstyle),
+       insert_child frag (RN (ITable (RRow (RCell n k s :: cells) rs :: rows) nc) st) true =
+       RN (ITable (RRow (RCell n (frag :: k) s :: cells) rs :: rows) nc) st.
+Proof. exact FragTables.insert_child_table_first_cell. Qed.
+Print Assumptions insert_child_table_first_cell.
+
+Theorem insert_child_row_first_cell :
+  forall (frag : rnode) (n : N) (k : list rnode) (s : cstyle) (cells : list rcell) (rs st : cstyle),
+       insert_child frag (RN (ITableRow (RRow (RCell n k s :: cells) rs)) st) true =
+       RN (ITableRow (RRow (RCell n (frag :: k) s :: cells) rs)) st.
+Proof. exact FragTables.insert_child_row_first_cell. Qed.
+Print Assumptions insert_child_row_first_cell.
+
